@@ -181,6 +181,8 @@ func main() {
 		cmdRace(os.Args[2:])
 	case "ttl":
 		cmdTTL(os.Args[2:])
+	case "bitmap":
+		cmdBitmap(os.Args[2:])
 	default:
 		fmt.Fprintln(os.Stderr, "unknown engine", os.Args[1])
 		os.Exit(2)
